@@ -104,19 +104,43 @@ Definition dsl_body (bs : list nbeh) (i : nat) (kw : kwargs) (att : nat) : outco
   end.
 
 (* ---- default oracles ------------------------------------------------------------------------ *)
-(* default order oracle: generation order (all nodes whose predecessors are done, then the next layer, ...), which is what
-   networkx's topological_sort produces; within a layer the order of d_nodes *)
-Fixpoint kahn (fuel : nat) (g : graph) (d : rdag) (remaining done : list key) : list key :=
-  match fuel with
-  | O => done ++ remaining
-  | S f =>
-    match filter (fun k => forallb (fun p => negb (mem key_eqb p remaining)) (dag_preds g d k)) remaining with
-    | [] => done ++ remaining
-    | layer => kahn f g d (filter (fun k => negb (mem key_eqb k layer)) remaining) (done ++ layer)
+(* default order oracle: exactly what networkx 3.x computes for topological_sort(view) = the generations of
+   topological_generations flattened: the first generation is the zero-in-degree nodes in node order; the next one collects,
+   scanning the current generation in order and each node's successors in adjacency (edge insertion) order, every child whose
+   last unprocessed predecessor this was. *)
+Definition dag_succs (g : graph) (d : rdag) (k : key) : list key :=
+  flat_map (fun e => if key_eqb (fst (fst e)) k && in_dag d k && in_dag d (snd (fst e))
+                        && (d_rec d || match ea_case (snd e) with Some _ => false | None => true end)
+                     then [snd (fst e)] else []) (g_edges g).
+
+Fixpoint nx_generation (g : graph) (d : rdag) (scan : list key) (indeg : list (key * nat)) (next : list key)
+  : list (key * nat) * list key :=
+  match scan with
+  | [] => (indeg, next)
+  | c :: r =>
+    match alookup key_eqb c indeg with
+    | Some (S O) => nx_generation g d r (aset key_eqb c O indeg) (next ++ [c])
+    | Some (S m) => nx_generation g d r (aset key_eqb c m indeg) next
+    | _ => nx_generation g d r indeg next
     end
   end.
 
-Definition default_order (g : graph) (d : rdag) : list key := kahn (length (d_nodes d)) g d (d_nodes d) [].
+Fixpoint kahn (fuel : nat) (g : graph) (d : rdag) (gen : list key) (indeg : list (key * nat)) (done : list key) : list key :=
+  match fuel with
+  | O => done ++ gen
+  | S f =>
+    match gen with
+    | [] => done
+    | _ => let '(indeg', next) := nx_generation g d (flat_map (dag_succs g d) gen) indeg [] in
+           kahn f g d next indeg' (done ++ gen)
+    end
+  end.
+
+Definition default_order (g : graph) (d : rdag) : list key :=
+  let nodes := filter (fun k => in_dag d k) (node_keys g) in
+  let indeg := map (fun k => (k, length (dag_preds g d k))) nodes in
+  let zero := filter (fun k => Nat.eqb (length (dag_preds g d k)) 0) nodes in
+  kahn (S (length nodes)) g d zero indeg [].
 
 Definition order_oracle (g : graph) (tbl : list (rdag * list key)) (d : rdag) : list key :=
   match alookup rdag_eqb d tbl with
